@@ -1,10 +1,17 @@
-"""C05: Lean theorems of Props/C05.lean on the executable model + K2 correspondence (DESIGN.md 6/C05, 12)."""
+"""C05: Lean theorems of Props/C05.lean on the executable model + K2 correspondence (DESIGN.md 6/C05, 12);
+size()/empty() must also stay exact across FAILED operations: the K5 fault scenarios are judged for that here."""
+import json
+
 import k2check
+import k5check
 
 
 def run(tier):
-    return k2check.run("C05", tier, profile="mixed")
+    return k2check.run("C05", tier, profile="mixed", phases=[k5check.k5_phase_for("C05")])
 
 
 def replay(path):
+    d = json.load(open(path))
+    if any(f.get("harness") == "k5" for f in d.get("failing_inputs", [])):
+        return k5check.replay("C05", path)
     return k2check.replay("C05", path)
